@@ -48,4 +48,17 @@ SeqResps(prog, mm, ix, acc) ==
 
 SeqRespsOf(pre, prog) == SeqResps(prog, M0(pre), [t \in 1..Len(prog) |-> 1], {})
 
+\* the same with a PROBE: one more status request issued after every thread has finished (thread 0); it must see the
+\* readiness map the chosen sequential order ends with - an answer computed during the concurrent part must not
+\* outlive it (a cache, a counter that drifted)
+RECURSIVE SeqRespsP(_, _, _, _)
+SeqRespsP(prog, mm, ix, acc) ==
+    LET ready == {t \in 1..Len(prog) : ix[t] <= Len(prog[t])} IN
+    IF ready = {} THEN {acc \cup {<<0, 1, CodeOf(BodyOf(mm)), BodyOf(mm)>>}}
+    ELSE UNION { LET o == prog[t][ix[t]] IN
+                 SeqRespsP(prog, ApplyOp(mm, o), [ix EXCEPT ![t] = @ + 1],
+                           IF o.op = "status" THEN acc \cup {<<t, ix[t], CodeOf(BodyOf(mm)), BodyOf(mm)>>} ELSE acc)
+                 : t \in ready }
+SeqRespsProbedOf(pre, prog) == SeqRespsP(prog, M0(pre), [t \in 1..Len(prog) |-> 1], {})
+
 =============================================================================
